@@ -387,6 +387,13 @@ macro_rules | `(tactic| pres_prim) => `(tactic| with_reducible first
 section compound
 variable {R : VmState → VmState → Prop} [CounterFrame R]
 
+theorem pres_guardRows (es : List (Val × Val)) : Pres R (guardRows es) := by
+  unfold guardRows; pres_auto
+theorem pres_unguardRows (es : List (Val × Val)) : Pres R (unguardRows es) := by
+  unfold unguardRows; pres_auto
+macro_rules | `(tactic| pres_prim) => `(tactic| with_reducible first
+  | exact pres_guardRows _ | exact pres_unguardRows _)
+
 theorem pres_allocBytes (c : Nat) : Pres R (allocBytes c) := by
   unfold allocBytes
   pres_auto
@@ -807,6 +814,13 @@ macro_rules | `(tactic| throws_prim) => `(tactic| with_reducible first
   | exact throws_closeUpvalues _ | exact throws_readUpvalueLoc _ | exact throws_writeUpvalueLoc _ _
   | exact throws_allocBytes _ | exact throws_guardVal _ | exact throws_unguardVal _)
 
+theorem throws_guardRows (es : List (Val × Val)) : Throws Benign (guardRows es) := by
+  unfold guardRows; throws_auto
+theorem throws_unguardRows (es : List (Val × Val)) : Throws Benign (unguardRows es) := by
+  unfold unguardRows; throws_auto
+macro_rules | `(tactic| throws_prim) => `(tactic| with_reducible first
+  | exact throws_guardRows _ | exact throws_unguardRows _)
+
 theorem throws_initTable : Throws Benign initTable := by unfold initTable; throws_auto
 theorem throws_initString (b : List UInt8) : Throws Benign (initString b) := by
   unfold initString; throws_auto
@@ -1126,6 +1140,13 @@ macro_rules | `(tactic| sim_prim) => `(tactic| with_reducible first
   | exact sim_writeLocal _ _ _ | exact sim_readLocal _ _ | exact sim_keyOf _ | exact sim_getTable _
   | exact sim_tableGet _ _ | exact sim_deallocBytes _ | exact sim_newObject _ | exact sim_dropGuard _
   | exact sim_closeUpvalues _ | exact sim_readUpvalueLoc _ | exact sim_writeUpvalueLoc _ _)
+
+theorem sim_guardRows (es : List (Val × Val)) : Sim δ (guardRows es) (guardRows es) := by
+  unfold guardRows; sim_auto
+theorem sim_unguardRows (es : List (Val × Val)) : Sim δ (unguardRows es) (unguardRows es) := by
+  unfold unguardRows; sim_auto
+macro_rules | `(tactic| sim_prim) => `(tactic| with_reducible first
+  | exact sim_guardRows _ | exact sim_unguardRows _)
 
 theorem gc_shift (s : VmState) : gc (s.shift δ) = (gc s).shift δ := rfl
 
